@@ -20,12 +20,14 @@ def main():
     try:
         demo = os.path.join(wt, "ecs", "seed_demo_test.go")
         shutil.copy(os.path.join(src, "demo_test.go"), demo)
-        r = sh("%s test -vet=off -count=1 -run 'Seed|Demo' ./ecs" % GO, cwd=wt)
+        race = "-race " if "-race" in json.dumps(meta) else ""  # the demonstration asks for the race detector
+        tags = ("-tags %s " % meta["demo_tags"]) if meta.get("demo_tags") else ""
+        r = sh("%s test -vet=off -count=1 %s%s-run 'Seed|Demo' ./ecs" % (GO, race, tags), cwd=wt)
         res["demo_passes_without"] = r.returncode == 0
         a = sh("git apply %s" % os.path.join(src, "patch.diff"), cwd=wt)
         if a.returncode != 0:
             res["apply"] = a.stderr[:300]; print(json.dumps(res)); return
-        r = sh("%s test -vet=off -count=1 -run 'Seed|Demo' ./ecs" % GO, cwd=wt)
+        r = sh("%s test -vet=off -count=1 %s%s-run 'Seed|Demo' ./ecs" % (GO, race, tags), cwd=wt)
         res["demo_fails_with"] = r.returncode != 0
         os.remove(demo)
         r = sh("%s test -vet=off -count=1 ./..." % GO, cwd=wt)
